@@ -72,7 +72,8 @@ func (u *zzvU) place(fs zzvFileSpec, i int, s0 time.Time) zzvPlaced {
 	}
 	w1 := zzvDate("2024-01-07")
 	begin := w1.Add(-4 * zzvDay)
-	counts := map[string]uint64{"c": uint64(1 + i), "d:a": uint64(10 + i), "s\nF": uint64(100 + i)}
+	// (the last two names differ only in a byte that is not valid UTF-8)
+	counts := map[string]uint64{"c": uint64(1 + i), "d:a": uint64(10 + i), "s\nF": uint64(100 + i), "a\xff": uint64(1000 + i), "a\xfe": uint64(2000 + i)}
 	pl := zzvPlaced{readable: true, end: w1}
 	switch fs.kind {
 	case "plain":
